@@ -306,7 +306,7 @@ Lemma lincomb_impl_correct {T} {N : Num T} {F : NumField T}
           /\ s' io = vlin a (s i1) b (s i2)
           /\ forall j, j <> io -> s' j = s j.
 Proof.
-  intros L12 Lo. unfold lincomb_impl.
+  intros L12 Lo. unfold lincomb_impl, lincomb_impl_sz.
   set (r := regime_of _ fl _).
   assert (Hbi : bi_ok r (blas_info bdt [f1; f2; fo])).
   { intros Er. apply (blas_regime_sound (Z.of_nat (length (s i1))) fl bdt f1 f2 fo). exact Er. }
@@ -324,8 +324,26 @@ Lemma lincomb_impl_nonfloating {T} `{Num T} (cast : T -> T) (bdt : bool) (flags 
           /\ s' io = map cast (vlin a (s i1) b (s i2))
           /\ forall j, j <> io -> s' j = s j.
 Proof.
-  intros L12. unfold lincomb_impl.
+  intros L12. unfold lincomb_impl, lincomb_impl_sz.
   assert (E : forall bo, regime_of (Z.of_nat (length (s i1))) false bo = Direct).
   { intros bo. unfold regime_of. cbn [negb]. rewrite orb_true_r. reflexivity. }
   rewrite E. apply post_ok. apply direct_exact. exact L12.
+Qed.
+
+(* the size argument only selects the regime: the same conclusion for EVERY size value *)
+Lemma lincomb_impl_sz_correct {T} {N : Num T} {F : NumField T}
+      (fl bdt : bool) (f1 f2 fo : bool * bool) (size : Z) (a b : T) (i1 i2 io : nat) (s : store T) :
+  length (s i1) = length (s i2) -> length (s io) = length (s i1) ->
+  exists s', lincomb_impl_sz (fun u => u) fl bdt [f1; f2; fo] size a i1 b i2 io s = Ok s'
+          /\ s' io = vlin a (s i1) b (s i2)
+          /\ forall j, j <> io -> s' j = s j.
+Proof.
+  intros L12 Lo. unfold lincomb_impl_sz.
+  set (r := regime_of _ fl _).
+  assert (Hbi : bi_ok r (blas_info bdt [f1; f2; fo])).
+  { intros Er. apply (blas_regime_sound size fl bdt f1 f2 fo). exact Er. }
+  destruct (post_ok _ _ _ _ _ _ _ _
+              (lincomb_fuel_correct r (blas_info bdt [f1; f2; fo]) a b i1 i2 io s Hbi L12 Lo))
+    as (s' & E & Hout & Hfr).
+  exists s'. rewrite map_id in Hout. auto.
 Qed.
